@@ -383,7 +383,18 @@ def scenario_oracle_drains(obs):
     r = scenario_oracle_reliable(obs)
     if r is not None:
         return r
-    if not obs["established"] or obs["stopped"]:
+    if obs["stopped"]:
+        return None
+    if not obs["established"]:
+        # the handshake was still under way (T1 armed) when the network stopped losing datagrams: every retransmitted
+        # INIT / COOKIE-ECHO now reaches the peer, so the association must come up on both sides
+        before = obs.get("assoc_before_heal") or []
+        # (an endpoint that had already used up its SCTP_MAX_INIT_RETRANS = 8 retransmissions gives up legitimately)
+        tries_left = all(f < 8 for f in obs.get("t1_failures_before_heal", [0, 0]))
+        if any(a in ("COOKIE_WAIT", "COOKIE_ECHOED") for a in before) and "ESTABLISHED" in obs["assoc"] and tries_left:
+            return ("handshake-not-completed-after-healing",
+                    f"association states {before} when the network healed, {obs['assoc']} after the fault-free suffix: one "
+                    "side reports itself connected, the other never gets there")
         return None
     if obs["healed_rounds"] is None or not obs["quiescent"]:
         return ("not-quiescent-after-healing", f"queues sent={obs['sent_queue']} outbound={obs['outbound_queue']} "
